@@ -93,22 +93,26 @@ LookupCase(cfg, u) == [E |-> cfg.E, T |-> cfg.T, u |-> u]
 
 ExactHit(c) == {e \in c.E : ExactU(e) = c.u}
 Matching(c) == {t \in c.T : Match(t, c.u)}
+\* (the ...W forms take the set of matching registered templates as an argument, so that a caller that enumerates
+\* configurations for one URI evaluates Match once per template)
 \* the first matching template in the iteration order of the feature set
-FirstMatching(c) == CHOOSE t \in Matching(c) : \A t2 \in Matching(c) : TemplateRank(t) <= TemplateRank(t2)
+FirstOf(ms) == CHOOSE t \in ms : \A t2 \in ms : TemplateRank(t) <= TemplateRank(t2)
 
-LookupExpected(c) ==
+LookupExpectedW(c, ms) ==
   IF ExactHit(c) # {} THEN LET e == CHOOSE e \in ExactHit(c) : TRUE IN [ran |-> <<e>>, res |-> "ok", by |-> e]
-  ELSE IF Matching(c) # {} THEN [ran |-> <<FirstMatching(c)>>, res |-> "ok", by |-> FirstMatching(c)]
+  ELSE IF ms # {} THEN [ran |-> <<FirstOf(ms)>>, res |-> "ok", by |-> FirstOf(ms)]
   ELSE [ran |-> <<>>, res |-> "notfound", by |-> ""]
+LookupExpected(c) == LookupExpectedW(c, Matching(c))
 
 \* P1: served by the exact resource if any, else by A matching template, else not found; nothing else is invoked
-LookupHolds(c, o) ==
+LookupHoldsW(c, o, ms) ==
   /\ Len(o.ran) <= 1
   /\ ExactHit(c) # {} => Rng(o.ran) = ExactHit(c)
-  /\ (ExactHit(c) = {} /\ Matching(c) # {}) => (Len(o.ran) = 1 /\ o.ran[1] \in Matching(c))
-  /\ (ExactHit(c) = {} /\ Matching(c) = {}) => (o.ran = <<>> /\ o.res = "notfound")
+  /\ (ExactHit(c) = {} /\ ms # {}) => (Len(o.ran) = 1 /\ o.ran[1] \in ms)
+  /\ (ExactHit(c) = {} /\ ms = {}) => (o.ran = <<>> /\ o.res = "notfound")
   /\ o.res = "ok" <=> o.ran # <<>>                       \* a read succeeds only through a registered handler
   /\ o.ran # <<>> => o.by = o.ran[1]                     \* and what comes back is what that handler returned
+LookupHolds(c, o) == LookupHoldsW(c, o, Matching(c))
 
 \* The same rule on a registry given as generation maps (e: exact name -> generation, t: template name -> generation,
 \* 0 = not registered); a handler is the tag [k, key, g].  Used by the state machine and by the monitor (P6).
@@ -260,8 +264,12 @@ Jail(segs) == Walk(DirPos, segs, 12, TRUE)
 SegU == {"info.txt", "pub", "file.txt", "sub", "deep", "f.txt", "missing", "..", ".", "",
          "link_in", "link_in_abs", "link_out", "link_out_abs", "linkdir_out", "linkdir_in", "link_chain", "loop",
          "link_up", "link_round", "o.txt", "secret.txt", "outside", "dir"}
-Paths(n) == SeqsUpTo(SegU, n) \ {<<>>}
-SpecialPaths == {<<"nul%00">>, <<"info.txt", "nul%00">>, <<"..", "dirx", "x.txt">>, <<"pub", "..", "..", "dirx", "x.txt">>,
+\* paths of three segments start with something that can be walked through (a path that starts with a regular file, a
+\* dangling name or a link to a file is settled after its first segment)
+SegFirst3 == {"pub", "sub", "..", ".", "", "linkdir_out", "linkdir_in", "outside", "dir", "link_out", "loop"}
+Paths(n) == {p \in SeqsUpTo(SegU, n) \ {<<>>} : Len(p) = 3 => p[1] \in SegFirst3}
+SpecialPaths == {<<"sub", "deep", "f.txt">>, <<"linkdir_in", "deep", "f.txt">>, <<"sub", "deep", "missing">>,   \* (in every tier)
+                 <<"nul%00">>, <<"info.txt", "nul%00">>, <<"..", "dirx", "x.txt">>, <<"pub", "..", "..", "dirx", "x.txt">>,
                  <<"ABS", "secret.txt">>, <<"", "ABS", "secret.txt">>, <<"..", "..", "ABS", "secret.txt">>,   \* ABS: the absolute path of base
                  <<"sub", "deep", "..", "..", "info.txt">>, <<"linkdir_out", "..", "secret.txt">>, <<"pub", "link_up", "x">>}
 
